@@ -146,7 +146,8 @@ func (c zzConnHook) SessionKey() []byte                        { return nil }
 // Finished with the expected sequence number is cached and its body equals
 // PRF_client_finished(stored secret, ClientHello || ServerHello || server Finished) (RFC 5246 7.4.9: all
 // messages of this handshake up to but not including this one); any other Finished gives a fatal
-// handshake_failure alert and no completion; a missing or plaintext Finished leaves the server waiting.
+// handshake_failure alert and no completion; a missing or plaintext Finished leaves the server waiting; the
+// server's session store is never written by the abbreviated handshake (no resurrection of a deleted session).
 //
 //symgo:entry covers=accepted,rejected_value,rejected_length,waiting_absent,waiting_plaintext
 func zzResumeServerFin() {
@@ -156,6 +157,11 @@ func zzResumeServerFin() {
 	state.CipherSuite = suite
 	secret := zzsymBytes("server_stored_secret", zzsymChoice("seclen", zzsymParam("FSEC")+1))
 	state.MasterSecret = secret
+	// the session being resumed, as flight0Parse left it after the store lookup; the store itself may have lost
+	// the entry since (a sibling connection sharing the session sent a fatal alert)
+	state.SessionID = zzsymBytes("resumed_session_id", 2)
+	store := &zzStore{}
+	store.attach(cfg)
 	cache := dtlsflight.NewCache()
 	nb := zzsymParam("FBODY")
 
@@ -179,6 +185,12 @@ func zzResumeServerFin() {
 	}
 
 	next, a, err := flight4bParse(context.Background(), zzConn{}, state, cache, cfg)
+
+	// store invariant behind "a session on which a fatal alert was sent is no longer offered": the server side of
+	// an abbreviated handshake never WRITES the store (entries are created only by a full handshake, under a
+	// freshly generated id - zzSessionStoredOnlyAfterChecks / zzResumeFreshIDs), so an entry deleted by a fatal
+	// alert on any connection cannot come back under the same id
+	zzsymAssert(len(store.setKeys) == 0, "abbreviated_handshake_never_writes_server_store")
 
 	transcript := append(append(append([]byte{}, ch...), sh...), sfin...)
 	want := zzsymUF("PRF_client_finished", 12, secret, transcript)
